@@ -134,6 +134,8 @@ mod serialization {
 
         fn read(de: &mut Deserializer) -> Result<Self, Self::Error> {
             let encapsulation = de.read::<XEnc>()?;
+            // The length prefix must be canonical too.
+            crate::bytes_ser_de::read_canonical_leb128_u64(&mut Deserializer::new(de.value()))?;
             let ciphertext = crate::bytes_ser_de::read_vec(de)?;
             let encrypted_metadata = if ciphertext.is_empty() {
                 None
